@@ -72,5 +72,4 @@ func cmdRun(args []string) {
 
 var smtLogPath string
 
-func cmdCheck(args []string) int    { return 2 }
 func cmdSelftest(args []string) int { return 0 }
